@@ -388,7 +388,17 @@ def check(cx):
                     for st in fa_.blocks[b_]["stmts"]:
                         if any(isinstance(pe, str) and pe.startswith(".is_non_null:") for pe in st["dst"][1:]):
                             k = op_const(st["rv"]["o"][0]) if st["rv"].get("r") == "use" else None
-                            vals.append(k.get("v") if k and "v" in k else "computed")
+                            if k and "v" in k:
+                                vals.append(k["v"])
+                            else:
+                                # a computed value is a violation only if the instruction's previous-state flag feeds it
+                                l_ = op_local(st["rv"]["o"][0]) if st["rv"].get("o") else None
+                                cl_ = (fa_.dep_closure(l_) | {l_}) if l_ is not None else set()
+                                from_flag = any(s2["dst"][0] in cl_ and any(isinstance(pe, str) and pe.startswith(".was_") for pe in
+                                                                             ((s2["rv"].get("p") or []) + [pe2 for o2 in (s2["rv"].get("o") or []) if isinstance(s2["rv"].get("o"), list)
+                                                                                                         for pe2 in (o2.get("c") or o2.get("m") or [])])[1:])
+                                                for b2 in fa_.blocks for s2 in b2["stmts"])
+                                vals.append("previous-state flag" if from_flag else want)
                 cx.verdict(vals == [want], r11, var, fa_.where(), "stores %s" % bool(want),
                            "the %s arm of apply_column_alter stores %s into is_non_null instead of the constant %s: ALTER COLUMN %s on a column "
                            "that already is in that state flips it" % (var, vals or "nothing", bool(want), "SET NOT NULL" if want else "DROP NOT NULL"))
